@@ -4,7 +4,7 @@ def obligations(tier):
     nmax = 12 if tier == "quick" else 20
     send = Prog("qmail-send.c", nomain=True)
     # due-time gate, flagdying, expired-Z handling, restart schedule: qmail-send transitions shared with C03
-    shared = borrow("C03", ["pass_dochan", "pqadd", "del_dochan"], tier)
+    shared = borrow("C03", ["pass_dochan", "pqadd", "del_dochan", "pqrun", "pqfinish"], tier)
     return shared + [
         Obl("sqrt_exact", "sqrt.c", progs=[send], backend="kissat", witness_mode="twin",
             unwind={"squareroot": 17}, timeout=900,
